@@ -1,6 +1,18 @@
 from vdriver import Group
+import importlib.util, os
 META = {'level': 'other'}
+def _c19():
+    spec = importlib.util.spec_from_file_location('chk_C19_for_C28', os.path.join(os.path.dirname(os.path.abspath(__file__)), 'C19.py'))
+    m = importlib.util.module_from_spec(spec)
+    spec.loader.exec_module(m)
+    return m
 def groups(tier):
+    R = dict(unit='ctrl_rate', harness='C28/rate.c', unwind=16, kind='unbounded', timeout=600, backend=['sat', 'cadical', 'cvc5'], defines=['CXX_VEC_CAP=16'])
+    return _groups(tier) + [
+        Group('rate.store', entry='h_store_rate', clause='allow_store_request: one step from every admissible history, symbolic clock: at most 6 accepted per identity in any 30 s window; refused only then', **R),
+        Group('rate.fetch', entry='h_fetch_rate', clause='allow_stream_fetch: the same with limit 12', **R)] + \
+        [g for g in _c19().groups(tier) if g.name in ('store.clz', 'store.valid')]    # the PoW predicate STORE admission relies on (C19 obligations)
+def _groups(tier):
     return [Group('store.admission', 'ctrl_admit', 'C28/admit.c', entry='h_admit', unwind=3, kind='skeleton', checks=[], skeleton=True, replay='rate',
                   bound='control-flow skeleton (E3) with value tags; loops unrolled twice', timeout=900, backend=['sat', 'cadical'],
                   clause='STORE: body read only after the length check; store_chunk only with the TTL found inside the window, a valid PoW '
@@ -8,6 +20,8 @@ def groups(tier):
 
 
 def replay(group, trace):
+    if group.replay != 'rate':
+        return None, 'no native replay for this group'
     """a REAL Node + ControlServer without a token: 12 STOREs from one address with 12 different TOKEN headers"""
     import sys, os, random
     root = os.path.dirname(os.path.dirname(os.path.abspath(__file__)))
